@@ -10,4 +10,4 @@ CONSTANTS
   ByteSized = FALSE
   Lifetime = TRUE
 INVARIANTS TypeOK Bounded LastAgrees LifeBalanced
-PROPERTIES CopiesWhole NoNewValues KeepsPrefix StorageOnly OtherUntouched SwapExchanges InsertShifts ThrowsIffBeyond
+PROPERTIES MoveHandsOver CopiesWhole NoNewValues KeepsPrefix StorageOnly OtherUntouched SwapExchanges InsertShifts ThrowsIffBeyond
